@@ -348,9 +348,15 @@ func TestC15(t *testing.T) {
 				i := rapid.IntRange(0, len(words)-1).Draw(rt, "wi")
 				j := rapid.IntRange(i, min(len(words)-1, i+3)).Draw(rt, "wj")
 				frag := strings.Join(words[i:j+1], " ")
-				switch rapid.IntRange(0, 5).Draw(rt, "reform") {
+				switch rapid.IntRange(0, 8).Draw(rt, "reform") {
 				case 0:
 					return "(?i)" + regexp.QuoteMeta(strings.ToUpper(frag))
+				case 6:
+					return regexp.QuoteMeta(strings.ToUpper(frag)) // wrong letter case: matches nothing (patterns are case-sensitive)
+				case 7:
+					return "(?s)" + regexp.QuoteMeta(frag) + ".*$"
+				case 8:
+					return regexp.QuoteMeta(words[0]) + "|" + "zz-alternative"
 				case 1:
 					return "^" + regexp.QuoteMeta(m) + "$"
 				case 2:
